@@ -117,8 +117,38 @@ def one_history(rng, mode, tmpdirs):
             tmpdirs.append(d)
             ds = ds.diskcache(cache_dir=d + '/c', reuse=False, clear=True)
         handed = []
-        for _ in range(rng.randint(2, 8)):
-            act = rng.choice(['access', 'access', 'mutate', 'mutate_original'])
+        live = []          # iterators in flight: (kind, iterator, position)
+        for _ in range(rng.randint(3, 14)):
+            act = rng.choice(['access', 'access', 'mutate', 'mutate_original', 'live_start', 'live_start', 'live_next', 'live_next', 'live_next', 'live_next'])
+            if act == 'live_start' and n:
+                kind = rng.choice(['iter', 'items', 'prefetch1', 'copy_iter'] if keys else ['iter', 'prefetch1', 'copy_iter'])
+                it = {'iter': lambda: iter(ds), 'items': lambda: iter(ds.items()), 'prefetch1': lambda: iter(ds.prefetch(1, 1)),
+                      'copy_iter': lambda: iter(ds.copy())}[kind]()
+                live.append([kind, it, 0])
+                steps.append(('start_iterator', kind))
+                continue
+            if act == 'live_next' and live:
+                ent = rng.choice(live)
+                try:
+                    obj = next(ent[1])
+                except StopIteration:
+                    live.remove(ent)
+                    continue
+                if ent[0] == 'items':
+                    obj = obj[1]
+                steps.append(('next', ent[0], ent[2]))
+                if obj != pristine[ent[2]]:
+                    fails.append(('handed_out_differs_from_stored', {'mode': mode, 'path': 'live ' + ent[0], 'position': ent[2],
+                                                                      'got': repr(obj)[:200], 'stored': repr(pristine[ent[2]])[:200],
+                                                                      'steps': steps[:]}))
+                handed.append(obj)
+                ent[2] += 1
+                # mutate what was just received while the iterator is suspended (e.g. inside a for-loop body)
+                if rng.random() < 0.6:
+                    steps.append(('mutate_just_received', mutate(rng, obj)))
+                continue
+            if act in ('live_start', 'live_next'):
+                act = 'access'
             if act == 'access' or not handed:
                 how, got = access(rng, ds, n, keys)
                 steps.append(('access', how))
@@ -142,7 +172,7 @@ def one_history(rng, mode, tmpdirs):
 
 def run(rep):
     rng = random.Random(rep.seed * 23 + 9)
-    nh = 500 if rep.tier == 'quick' else 10000
+    nh = 2000 if rep.tier == 'quick' else 30000
     modes = ['pickle', 'copy', 'wu', 'cache', 'cache_over_map', 'diskcache']
     tmpdirs = []
     fails = []
